@@ -27,6 +27,7 @@ type HarnessCfg struct {
 	TimeoutS int               `json:"timeout_s,omitempty"`
 	QueryMs  int               `json:"query_ms,omitempty"`
 	Native   bool              `json:"native,omitempty"`
+	Redirect map[string]string `json:"redirect,omitempty"` // callee -> harness-package function standing in for it (same signature, receiver first)
 	NoMerge  bool              `json:"nomerge,omitempty"`
 	UnwindIsViolation bool     `json:"unwind_is_violation,omitempty"` // the harness's subject is termination: exceeding the (generous) loop bound is reported
 	Note     string            `json:"note,omitempty"`
